@@ -154,4 +154,11 @@ def wCtorTag : Input :=
     dest := .field { name := "Title", ty := .basic "string" } .nil, srcNew := true, way := .fromOnly }
 theorem C15_F_ctorTag_witness : region15 wCtorTag = "F_ctorTag" ∧ obs15 wCtorTag ≠ spec15 wCtorTag := by decide
 
+/-- a constructor parameter of type `any` without a partner: `zeroValue` knows no alias types, the run aborts -/
+def wCtorZeroAny : Input :=
+  { src := .field { name := "ID", ty := .basic "int" } .nil,
+    dest := .field { name := "id", ty := .basic "int" } (.field { name := "extra", ty := .basic "any" } .nil),
+    destNew := true, way := .toOnly, conv := [(.basic "int", .basic "any")] }
+theorem C15_F_ctorZeroAny_witness : region15 wCtorZeroAny = "F_ctorZeroAny" ∧ obs15 wCtorZeroAny ≠ spec15 wCtorZeroAny := by decide
+
 end ShootVerif.Mapper
